@@ -19,6 +19,9 @@ RULE = (
     "same verdict and an equal result; non-trivial = history with >=2 calls, >=1 accepted and >=1 "
     "rejected, on a tree with >=1 property; distinct = distinct canon(recipe, history)"
 )
+RULE += (
+    ' Round 9: after every first-time value the verdict is also taken from a tree built from the same recipe that has never validated anything; dependency, format and inheritance families (base + subclass adding a requirement) joined the recipes.'
+)
 ASSUMPTIONS = [
     "results are compared through vlib.observe.plain (public read-back), not through ==, because twin builds have distinct classes",
     "error messages are not compared (not part of the statement)",
@@ -41,6 +44,7 @@ class Harness:
         for node in R.index(recipe).values():
             if node.get("kw", {}).get("format") in ("vf-unregistered", "vf-unknown-2"):
                 node["kw"]["format"] = "%s-%d-%d" % (node["kw"]["format"], __import__("os").getpid(), next(Harness._fresh))
+        self.built_recipe = recipe
         self.real = R.build(recipe)
         self.twin = R.build(recipe)
         self.snap0 = observe.snapshot(self.real)
@@ -137,6 +141,12 @@ class Harness:
                               "detail": [canon(prior[2]), canon(p), type(prior[3]).__name__, type(got[1]).__name__]})
         else:
             self.calls.append((copy.deepcopy(value), k, p, got[1] if k == "ok" else None, warned))
+        # ... and like a tree that has never validated anything (same verdict; what a class remembers from validating
+        # one value - or from its BASE class validating one - must not reach the next)
+        if prior is None:
+            fresh = observe.verdict(R.build(self.built_recipe), value)
+            if fresh[0] != k and fresh[0] in ("ok", "reject") and k in ("ok", "reject"):
+                fails.append({"sub": "fresh", "kind": f"used-tree-{k}-but-unused-copy-{fresh[0]}", "value": value})
         fails.extend(self.invariants(value))
         return fails
 
@@ -167,7 +177,8 @@ class Harness:
 
 def values_strategy(schema):
     return st.one_of(values_for(schema, 1, 1).map(lambda vs: vs[0]), values_for(schema, 1, 1).map(lambda vs: vs[0]),
-                     st.sampled_from(OVERLAP_VALUES), st.sampled_from(DEP_VALUES), st.sampled_from(FORMAT_VALUES))
+                     st.sampled_from(OVERLAP_VALUES), st.sampled_from(DEP_VALUES), st.sampled_from(FORMAT_VALUES),
+                     st.sampled_from(INHERITANCE_VALUES))
 
 
 @st.composite
@@ -230,6 +241,9 @@ def format_recipes(draw):
         {"name": "s", "source": None, "required": False, "element": leaf}]}
 
 
+INHERITANCE_VALUES = [{"base": {"a": "x"}}, {"base": {"a-b": "x"}}, {"child": {"a": "x"}}, {"child": {"a-b": "x", "b": 1}},
+                      {"child": {"a": "x", "b": 2, "zz": 1}}, {"base": {"a": "x"}, "child": {"a": "x"}},
+                      {"many": [{"a": "x"}, {"a": "x", "b": 1}]}, {"child": {}}]
 FORMAT_VALUES = ["abc", "", "x", ["abc"], ["a", "b"], {"s": "abc"}, {"s": 5}, 5, {"s": ""}]
 DEP_VALUES = [{"a": 1}, {"b": 1}, {"a": 1, "b": 2}, {"a": 1, "b": 2, "c": 3, "d": 4, "e": 5}, {"c": 1, "d": 2},
               {"a": 1, "e": 1}, {"d": 1}, {}, [{"a": 1, "b": 2}], [{"a": 1, "b": 2, "c": 3, "d": 4, "e": 5}, {"a": 1}]]
@@ -247,7 +261,8 @@ class Machine(RuleBasedStateMachine):
         self.h = None
 
     @initialize(recipe=st.one_of(R.recipes(R.RCfg(depth=3)), R.recipes(R.RCfg(depth=3)), R.recipes(R.RCfg(depth=3)),
-                                 overlapping_anyof(), dependency_recipes(), format_recipes()))
+                                 overlapping_anyof(), dependency_recipes(), format_recipes(),
+                                 R.inheritance_family().map(lambda rv: rv[0])))
     def init(self, recipe):
         self.h = Harness(recipe)
         self.schema = R.to_schema(recipe)
